@@ -213,6 +213,7 @@ func runC18(c *Ctx) {
 	verifyUsesOnlyVerifyAction(c, "R4")
 	newTransferCopiesServerFields(c, "R2")
 	actionSetsCopiedFromTheirOwn(c, "R2")
+	refspecQualifiesTypedNames(c, "R3")
 	extraHeadersAreAdded(c, "R4")
 	// ---- R2 first: which Transfer fields are set on request objects --------------------------
 	setFields := map[string]bool{}
